@@ -8,6 +8,8 @@ GAB2 = {"kind": "group", "id": "", "key": "", "members": ["A", "B"], "t": 2}
 GAB1 = {"kind": "group", "id": "", "key": "", "members": ["A", "B"], "t": 1}
 SGAB = [{"id": "A", "idx": 1}, {"id": "B", "idx": 1}]
 PSG = {"kind": "sg", "cid": "", "idx": 0, "sg": SGAB}
+CID_A = {"kind": "id", "id": "A", "key": "", "members": [], "t": 0}
+PIDX_A = {"kind": "idx", "cid": "A", "idx": 1, "sg": []}
 BASE = [dict(name="RegPk", id="A", key="k1", signers=["k1"]), dict(name="RegPk", id="B", key="k2", signers=["k2"])]
 SETUPS = {
     "I0": [],
@@ -28,8 +30,25 @@ SETUPS = {
                   dict(name="RemoveAuthKey", id="C", target=2, idx=1, signers=["k3"])],
     "I5": BASE + [dict(name="RegCtrl", id="C", ctrl={"kind": "id", "id": "A", "key": "", "members": [], "t": 0},
                        proof={"kind": "idx", "cid": "A", "idx": 1, "sg": []}, signers=["k1"])],
+    # revoked identities (set-ups use only methods that exist on both sides of the fork height)
+    "I8": BASE + [dict(name="RegPk", id="C", key="k3", signers=["k3"]),
+                  dict(name="AddAttrPk", id="C", attr="a1", op={"form": "pk", "key": "k3"}, signers=["k3"]),
+                  dict(name="AddRecoveryOld", id="C", key="k2", op={"form": "pk", "key": "k3"}, signers=["k3"]),
+                  dict(name="RevokeID", id="C", idx=1, signers=["k3"])],
+    "I9": [BASE[0],
+           dict(name="RegCtrl", id="B", ctrl=CID_A, proof=PIDX_A, signers=["k1"]),
+           dict(name="RegPk", id="C", key="k3", signers=["k3"]),
+           dict(name="RevokeByCtrl", id="B", proof=PIDX_A, signers=["k1"])],
+    # below the fork height (every key record has authentication right)
+    "P2": BASE + [dict(name="RegCtrl", id="C", ctrl=GAB2, proof=PSG, signers=["k1", "k2"]),
+                  dict(name="AddKeyByCtrl", id="C", key="k3", proof=PSG, signers=["k1", "k2"])],
+    "P3": BASE + [dict(name="RegPk", id="C", key="k3", signers=["k3"]),
+                  dict(name="AddKeyPk", id="C", key="k1", op={"form": "pk", "key": "k3"}, signers=["k3"]),
+                  dict(name="SetRecovery", id="C", group=GAB1, idx=1, signers=["k3"]),
+                  dict(name="AddAttrPk", id="C", attr="a1", op={"form": "pk", "key": "k3"}, signers=["k3"])],
 }
-ACTS = ["RegPk", "RegCtrl", "AddKeyIdx", "RemoveKeyIdx", "AddNewAuthKey", "SetAuthKey", "RemoveAuthKey", "AddKeyPk",
+REG_ACTS = ["RegPk", "RegAttrs", "RegCtrl"]
+ACTS = ["RegPk", "RegAttrs", "RegCtrl", "AddKeyIdx", "RemoveKeyIdx", "AddNewAuthKey", "SetAuthKey", "RemoveAuthKey", "AddKeyPk",
         "RemoveKeyPk", "AddAttrIdx", "RemoveAttrIdx", "AddAttrPk", "SetRecovery", "UpdateRecovery", "RemoveRecovery",
         "AddRecoveryOld", "ChangeRecoveryOld", "AddKeyByRecovery", "RemoveKeyByRecovery", "RemoveController",
         "AddKeyByCtrl", "RemoveKeyByCtrl", "AddAttrByCtrl", "SetAuthKeyByCtrl", "RevokeID", "RevokeByCtrl", "VerifySig"]
@@ -42,8 +61,14 @@ def which_init(st):
     c = ids["C"]
     if c["st"] == "none":
         return "I1"
+    if c["st"] == "revoked":
+        return "I8"
+    if ids["B"]["st"] == "revoked":
+        return "I9"
     if c["ctrl"]["kind"] == "group":
-        return "I2"
+        return "I2" if not c["keys"][0]["auth"] else "P2"
+    if c["rec"]["kind"] == "group" and all(k["auth"] for k in c["keys"]):
+        return "P3"
     if c["keys"] and c["keys"][0]["revoked"]:
         return "I6"
     if len(c["keys"]) == 2 and c["rec"]["kind"] == "none" and c["ctrl"]["kind"] == "none":
@@ -55,13 +80,13 @@ def which_init(st):
     return "I5"
 
 
-def cfg_text(inits, max_ops, export, props=True):
+def cfg_text(inits, max_ops, export, props=True, pre=False):
     lines = ["SPECIFICATION Spec", "CONSTANTS", "  Ids <- Ids3", "  Keys <- Keys3", "  AttrNames <- Attrs1", "  MaxKeys = 2",
              "  Groups <- Groups2", "  SgSets <- SgSets4", "  SignerSets <- AllSigners", "  MaxOps = %d" % max_ops,
-             "  Acts <- ActsAll", "  InitStates <- %s" % inits, "VIEW view",
+             "  Acts <- ActsAll", "  InitStates <- %s" % inits, "  NewOntId = %s" % ("FALSE" if pre else "TRUE"), "VIEW view",
              "INVARIANTS TypeOK RevokedEmpty NoneEmpty KeysDistinct"]
     if props:
-        lines.append("PROPERTIES OnlyAuthorized RevokedFinal")
+        lines.append("PROPERTIES OnlyAuthorized RevokedFinal RevokedNotRegistered")
     if export:
         lines += ["CONSTRAINT InitOut", "ACTION_CONSTRAINT Edge"]
     lines.append("CHECK_DEADLOCK FALSE")
@@ -102,15 +127,15 @@ def authorized(ids, x, S):
 
 
 def reg_authorized(ids, act, S):
-    if act["name"] == "RegPk":
+    if act["name"] in ("RegPk", "RegAttrs"):
         return act["key"] in S
     if act["name"] == "RegCtrl":
         return body_sat(ids, body(act["ctrl"]), S)
     return False
 
 
-def run_paths(ctx, binary, paths, tag, timeout=1800):
-    inp = {"ids": IDS, "keys": KEYS, "paths": [{"setup": SETUPS[which_init(p["init"])], "steps": [s["act"] for s in p["steps"]]} for p in paths]}
+def run_paths(ctx, binary, paths, tag, timeout=1800, pre=False):
+    inp = {"ids": IDS, "keys": KEYS, "pre": pre, "paths": [{"setup": SETUPS[which_init(p["init"])], "steps": [s["act"] for s in p["steps"]]} for p in paths]}
     fin = os.path.join(ctx.scratch, "replay-%s.in.json" % tag)
     fout = os.path.join(ctx.scratch, "replay-%s.out.ndjson" % tag)
     vf.write_json(fin, inp)
@@ -134,8 +159,8 @@ def tlc_design(ctx, cfg):
     return r
 
 
-def tlc_export(ctx, name, inits, max_ops, simulate=None, depth=None):
-    txt = cfg_text(inits, max_ops, True, props=not simulate)
+def tlc_export(ctx, name, inits, max_ops, simulate=None, depth=None, pre=False):
+    txt = cfg_text(inits, max_ops, True, props=not simulate, pre=pre)
     r = _tlccache.run(ctx, "OntId_MC", "OntId", name, txt, simulate=simulate, depth=depth, workers=1)
     if r.status != "ok" and not (simulate and r.status == "error" and not r.errors):
         ctx.infra("TLC failed on %s: %s %s %s" % (name, r.status, r.violated, r.errors[:2]))
@@ -145,7 +170,20 @@ def tlc_export(ctx, name, inits, max_ops, simulate=None, depth=None):
     return r, edges, inits_
 
 
-def check(ctx, paths, obs):
+def reg_on_revoked(paths):
+    """(entry point, caller class) pairs of registration attempts on a revoked identity contained in the paths"""
+    seen = set()
+    for p in paths:
+        cur = p["init"]
+        for s in p["steps"]:
+            a = s["act"]
+            if a["name"] in REG_ACTS and cur["ids"][a["id"]]["st"] == "revoked":
+                seen.add((a["name"], "witnessed" if a["signers"] else "unwitnessed"))
+            cur = s["to"]
+    return seen
+
+
+def check(ctx, paths, obs, pre=False):
     n = 0
     prev = None
     ndrift = 0
@@ -164,7 +202,7 @@ def check(ctx, paths, obs):
         if len(ctx.violations) > 40:
             break
         name = act["name"]
-        rp = {"init": which_init(p["init"]), "setup": SETUPS[which_init(p["init"])], "steps": [s["act"] for s in p["steps"][:o["step"]]]}
+        rp = {"below_fork_height": pre, "init": which_init(p["init"]), "setup": SETUPS[which_init(p["init"])], "steps": [s["act"] for s in p["steps"][:o["step"]]]}
         real = {x: norm(o["ids"][x]) for x in IDS} if o.get("ids") and len(o["ids"]) == len(IDS) else None
         if o["res"] == "panic" or real is None:
             ctx.violation("%s:panic" % name, o.get("err"), rp)
